@@ -11,7 +11,7 @@ usage: selftest_seeds.py [<seed dir name> ...]     (default: all)
 import json, os, shutil, subprocess, sys, time
 
 VERIF = os.path.dirname(os.path.abspath(__file__))
-SCRATCH = "/tmp/verif-selftest-repo"
+SCRATCH = os.environ.get("VERIF_SELFTEST_SCRATCH", "/tmp/verif-selftest-repo-%d" % os.getpid())
 
 def run(cmd, **kw):
     return subprocess.run(cmd, stdout=subprocess.PIPE, stderr=subprocess.STDOUT, text=True, **kw)
